@@ -9,8 +9,10 @@ ops:        key <trace>
             sample <kind> <forced|-> <seed> <trace>
 trace:      spans joined by '|' ('-' none); span = ['*'] fields joined by ';' ('_' none);
             field = <enc name>=<type>~<enc raw>
-ext:        str <type> <enc raw> = <enc rendering by AddAsString>     (accumulated over the case)
-            fmt <type> <enc raw> = <enc rendering by %v>
+types:      s string, b bool, n nil, int|int8|int16|int32|int64|uint|uint8|uint16|uint32|uint64 (raw = the
+            number in decimal), f float64 (raw = shortest round-trip text), a other ([]any{raw,1})
+ext:        str <type> <enc raw> = <enc strconv.FormatFloat(v,'f',-1,64) | fmt %v>   (types f, a only; Go stdlib
+            fmt <type> <enc raw> = <enc fmt.Sprintf("%v", v)>                        computed by the harness)
             dynrate = <r>     dyncall <enc key> <count>     intn <n> = <d>
 obs:        k=<enc key> n=<count>      |   rate=<r> keep=<0|1> reason=<kind> k=<enc key>
 -/
@@ -47,6 +49,17 @@ def dec (s : String) : Option String :=
 
 /-! ## parsing -/
 
+def intTypes : List String :=
+  ["int", "int8", "int16", "int32", "int64", "uint", "uint8", "uint16", "uint32", "uint64"]
+
+def parseVal (ty raw : String) : Option Val :=
+  if ty == "s" then some (.str raw)
+  else if ty == "b" then (if raw == "true" then some (.bool true) else if raw == "false" then some (.bool false) else none)
+  else if ty == "n" then some .nil
+  else if intTypes.contains ty then raw.toInt?.map (.int ty)
+  else if ty == "f" || ty == "a" then some (.ext ty raw)
+  else none
+
 def parseField (tok : String) : Option (String × Val) :=
   match tok.splitOn "=" with
   | [n, tv] =>
@@ -54,7 +67,8 @@ def parseField (tok : String) : Option (String × Val) :=
     | [ty, raw] => do
       let n ← dec n
       let raw ← dec raw
-      some (n, ⟨ty, raw⟩)
+      let v ← parseVal ty raw
+      some (n, v)
     | _ => none
   | _ => none
 
@@ -96,14 +110,18 @@ def Tabs.add (t : Tabs) (exts : List (List String)) : Tabs :=
       | _, _ => t
     | _ => t) t
 
-def Tabs.has (t : Tabs) (v : Val) : Bool :=
-  (t.str.lookup (v.ty, v.raw)).isSome && (t.fmt.lookup (v.ty, v.raw)).isSome
+def Tabs.has (t : Tabs) : Val → Bool
+  | .ext ty raw => (t.str.lookup (ty, raw)).isSome && (t.fmt.lookup (ty, raw)).isSome
+  | _ => true
 
 def Tabs.covers (t : Tabs) (tr : Trace) : Bool :=
   tr.spans.all fun sp => sp.all fun fv => t.has fv.2
 
 def Tabs.ext (t : Tabs) : Ext :=
-  ⟨fun v => (t.str.lookup (v.ty, v.raw)).getD "?", fun v => (t.fmt.lookup (v.ty, v.raw)).getD "?"⟩
+  ⟨fun ty raw => (t.str.lookup (ty, raw)).getD "?", fun ty raw => (t.fmt.lookup (ty, raw)).getD "?"⟩
+
+/-- the reference rendering: plain types by the model, floats/others by the Go standard library -/
+def Tabs.render (t : Tabs) : Render := renderOf t.ext
 
 def cap : Nat := Refinery.Gen.Tracekey.maxKeyLength.toNat
 def pre : String := Refinery.Gen.Tracekey.rootPrefix
@@ -130,7 +148,7 @@ def step (s : St) (op : List String) (exts : List (List String)) : St × Option 
       | none => (s, some "bad-op")
       | some tr =>
         if !s.tabs.covers tr then (s, some "missing-ext") else
-        let r := build cap pre s.tabs.ext cfg tr
+        let r := build cap pre s.tabs.render cfg tr
         (s, some s!"k={enc r.1} n={r.2}")
     | ["sample", kind, _forced, _seed, tt] =>
       if !kinds.contains kind then (s, some "bad-op") else
@@ -149,7 +167,7 @@ def step (s : St) (op : List String) (exts : List (List String)) : St × Option 
               | some [ek, cnt] => if dec ek == some k && cnt.toNat? == some n then some r else none
               | some _ => none
               | none => some r
-            let k := key cap pre s.tabs.ext cfg tr
+            let k := key cap pre s.tabs.render cfg tr
             match dyn k tr.spans.length with
             | none => (s, some s!"dynsampler-asked-with-other-arguments k={enc k} count={tr.spans.length}")
             | some r =>
@@ -159,7 +177,7 @@ def step (s : St) (op : List String) (exts : List (List String)) : St × Option 
                 | _ => none
               -- run the model with the total functions the graphs extend to; a point outside the
               -- graph is reported, never defaulted
-              let res := getSampleRate cap pre s.tabs.ext cfg tr (fun _ _ => r) (fun n => (intn n).getD 0)
+              let res := getSampleRate cap pre s.tabs.render cfg tr (fun _ _ => r) (fun n => (intn n).getD 0)
               let rate := res.2.rate
               if (intn rate).isNone then (s, some s!"missing-ext intn {rate}") else
               (s, some s!"rate={rate} keep={if res.2.keep then 1 else 0} reason={kind} k={enc res.1}")
@@ -176,19 +194,25 @@ def initSt (args : List String) : St :=
 /-! ## monitor: the property on the implementation's own observations
 
 For every observed (trace, key) of the case the monitor keeps the trace's *value summary*: per
-configured non-root field the set of renderings it takes, per root field the root span's
-rendering, the span count.  It then checks, against the earlier observations of the case:
+configured non-root field the set of LOGICAL (type-tagged) values it takes — as the generator
+wrote them into the op, not as the code renders them —, per root field the root span's value,
+the span count.  Each value carries its reference rendering (plain types: the model's; floats and
+others: Go's standard library via `ext`), used only to evaluate the hypotheses "free of the
+delimiters" and "different values render differently".  Checked against the earlier
+observations of the case:
 
-* same summary (span count included only under UseTraceLength), fewer than `cap` distinct values
-  ⇒ same key                                              (determined / perm / dup invariance)
-* different value sets, all fields present, values free of `•` and `,`, below the cap
-  ⇒ different keys                                        (separation)
+* same value sets (span count included only under UseTraceLength), fewer than `cap` distinct
+  values ⇒ same key                                       (determined / perm / dup invariance)
+* different value sets, all fields present, reference renderings free of `•` and `,` and
+  pairwise different for different values, below the cap ⇒ different keys       (separation)
 and on `sample`: rate ≥ 1, keep ⇔ the draw was 0, dynsampler asked with the returned key and the
 span count, no panic whatever dynsampler answered. -/
 
+abbrev RV := Val × String            -- logical value with its reference rendering
+
 structure Summary where
-  sets : List (List String)          -- per non-root field (configured order, duplicates kept)
-  roots : List (Option String)       -- per root field
+  sets : List (List RV)              -- per non-root field (configured order, duplicates kept)
+  roots : List (Option RV)           -- per root field
   len : Nat
   distinct : Nat                     -- number of distinct (field, value) pairs
   allPresent : Bool
@@ -205,36 +229,50 @@ structure MSt where
   tabs : Tabs := {}
   seen : List Seen := []
 
-def dedup (l : List String) : List String :=
-  l.foldl (fun a s => if a.contains s then a else s :: a) []
+def dedupV (l : List RV) : List RV :=
+  l.foldl (fun a s => if a.any (·.1 == s.1) then a else s :: a) []
 
-def subset (a b : List String) : Bool := a.all fun s => b.contains s
-def sameSet (a b : List String) : Bool := subset a b && subset b a
+def subsetV (a b : List RV) : Bool := a.all fun s => b.any (·.1 == s.1)
+def sameSetV (a b : List RV) : Bool := subsetV a b && subsetV b a
 
 def isDelimFree (s : String) : Bool := !(s.toList.contains '•') && !(s.toList.contains ',')
 
 def summarize (m : MSt) (tr : Trace) : Summary :=
   let nonRoot := m.fields.filter fun f => !hasPrefix pre f
   let rootF := (m.fields.filter fun f => hasPrefix pre f).map (cutPrefix pre)
-  let x := m.tabs.ext
-  let sets := nonRoot.map fun f => dedup (tr.spans.filterMap fun sp => (sp.lookup f).map x.conv)
-  let roots := rootF.map fun f => tr.root.bind fun r => (r.lookup f).map x.fmtv
+  let x := m.tabs.render
+  let sets := nonRoot.map fun f => dedupV (tr.spans.filterMap fun sp => (sp.lookup f).map fun v => (v, x.conv v))
+  let roots := rootF.map fun f => tr.root.bind fun r => (r.lookup f).map fun v => (v, x.fmtv v)
   { sets := sets, roots := roots, len := tr.spans.length,
     distinct := (sets.map (·.length)).sum,
     allPresent := sets.all (fun s => !s.isEmpty) && roots.all (·.isSome),
-    delimFree := sets.all (fun s => s.all isDelimFree) && roots.all (fun r => (r.map isDelimFree).getD true),
+    delimFree := sets.all (fun s => s.all (isDelimFree ·.2)) && roots.all (fun r => (r.map (isDelimFree ·.2)).getD true),
     spans := tr.spans }
 
-def sameSets (a b : Summary) : Bool :=
-  a.sets.length == b.sets.length && (a.sets.zip b.sets).all (fun p => sameSet p.1 p.2) && a.roots == b.roots
+def rootsEq (a b : Summary) : Bool := a.roots.map (·.map (·.1)) == b.roots.map (·.map (·.1))
 
-def noEmpty (l : List String) : List String := l.filter (· ≠ "")
+def sameSets (a b : Summary) : Bool :=
+  a.sets.length == b.sets.length && (a.sets.zip b.sets).all (fun p => sameSetV p.1 p.2) && rootsEq a b
+
+def noEmpty (l : List RV) : List RV := l.filter (·.1 != Val.str "")
 
 def sameSetsModuloEmpty (a b : Summary) : Bool :=
-  a.sets.length == b.sets.length && (a.sets.zip b.sets).all (fun p => sameSet (noEmpty p.1) (noEmpty p.2)) &&
-    a.roots == b.roots
+  a.sets.length == b.sets.length && (a.sets.zip b.sets).all (fun p => sameSetV (noEmpty p.1) (noEmpty p.2)) &&
+    rootsEq a b
+
+/-- different values involved in one field never share a reference rendering -/
+def renderInj (a b : Summary) : Bool :=
+  (a.sets.zip b.sets).all (fun p =>
+    let u := p.1 ++ p.2
+    u.all fun v => u.all fun w => v.2 != w.2 || v.1 == w.1) &&
+  (a.roots.zip b.roots).all (fun p =>
+    match p.1, p.2 with
+    | some v, some w => v.2 != w.2 || v.1 == w.1
+    | _, _ => true)
 
 def isPerm (a b : List Span) : Bool := a.length == b.length && a.all (fun s => a.count s == b.count s)
+
+def showVals (l : List RV) : String := "{" ++ ",".intercalate (l.map fun v => enc v.2) ++ "}"
 
 def checkKey (m : MSt) (sum : Summary) (k : String) : List Fail :=
   let below (s : Summary) := s.distinct < cap
@@ -246,13 +284,14 @@ def checkKey (m : MSt) (sum : Summary) (k : String) : List Fail :=
         some { prop := "C11", sig := s!"C11:key-depends-on-{how}",
                what := s!"same distinct value sets but keys {enc o.key} and {enc k}" : Fail }
       else none
-    else if sum.allPresent && o.sum.allPresent && sum.delimFree && o.sum.delimFree && k == o.key then
+    else if sum.allPresent && o.sum.allPresent && sum.delimFree && o.sum.delimFree &&
+        renderInj sum o.sum && k == o.key then
       if sameSetsModuloEmpty sum o.sum then
         some { prop := "C11", sig := "C11:key-collision:empty-string-value",
                what := s!"value sets differ only by the empty string, both traces get key {enc k}" : Fail }
       else
         some { prop := "C11", sig := "C11:key-collision:distinct-value-sets",
-               what := s!"different value sets, same key {enc k}" : Fail }
+               what := s!"different value sets {" ".intercalate (sum.sets.map showVals)} / {" ".intercalate (o.sum.sets.map showVals)} (reference renderings), same key {enc k}" : Fail }
     else none
   fails.take 1
 
